@@ -60,11 +60,41 @@ pub fn check_job_log(log: &[JobEv], bailed: bool) -> Vec<(String, String)> {
     out
 }
 
-fn wrap(job: PromiseJob, id: u64, log: Rc<RefCell<Vec<JobEv>>>) -> PromiseJob {
+fn wrap(job: PromiseJob, id: u64, log: Rc<RefCell<Vec<JobEv>>>, stop: Option<std::sync::Arc<portable_stop::Flag>>) -> PromiseJob {
     PromiseJob::new(move |ctx| {
         log.borrow_mut().push(JobEv::Run(id, ctx.stack_trace().count()));
+        if let Some(s) = &stop {
+            s.trip();
+        }
         job.call(ctx)
     })
+}
+
+/// A cap on the number of promise jobs one drain may run: a program whose jobs keep enqueueing
+/// jobs never lets `run_jobs` return (that is the executor's documented behaviour, not a defect),
+/// so campaigns over arbitrary programs ask the real executor to stop through its own
+/// cancellation token once the cap is reached.
+pub mod portable_stop {
+    use std::sync::atomic::{AtomicU64, Ordering};
+    pub struct Flag {
+        pub remaining: AtomicU64,
+        pub token: std::sync::Arc<portable_atomic_shim::AtomicBoolAlias>,
+        pub tripped: AtomicU64,
+    }
+    impl Flag {
+        pub fn trip(&self) {
+            let r = self.remaining.load(Ordering::Relaxed);
+            if r == 0 {
+                self.token.store(true, Ordering::Relaxed);
+                self.tripped.fetch_add(1, Ordering::Relaxed);
+            } else {
+                self.remaining.store(r - 1, Ordering::Relaxed);
+            }
+        }
+    }
+    pub mod portable_atomic_shim {
+        pub type AtomicBoolAlias = portable_atomic::AtomicBool;
+    }
 }
 
 #[derive(Default)]
@@ -72,6 +102,22 @@ pub struct Recording {
     pub inner: Rc<SimpleJobExecutor>,
     pub log: Rc<RefCell<Vec<JobEv>>>,
     next: Cell<u64>,
+    pub cap: RefCell<Option<std::sync::Arc<portable_stop::Flag>>>,
+}
+
+impl Recording {
+    /// Allows at most `n` further promise jobs; afterwards the executor is asked to stop.
+    pub fn set_job_cap(&self, n: u64) {
+        let flag = portable_stop::Flag {
+            remaining: std::sync::atomic::AtomicU64::new(n),
+            token: self.inner.get_cancellation_token(),
+            tripped: std::sync::atomic::AtomicU64::new(0),
+        };
+        *self.cap.borrow_mut() = Some(std::sync::Arc::new(flag));
+    }
+    pub fn cap_tripped(&self) -> bool {
+        self.cap.borrow().as_ref().is_some_and(|f| f.tripped.load(std::sync::atomic::Ordering::Relaxed) > 0)
+    }
 }
 
 impl JobExecutor for Recording {
@@ -81,7 +127,7 @@ impl JobExecutor for Recording {
                 let id = self.next.get();
                 self.next.set(id + 1);
                 self.log.borrow_mut().push(JobEv::Enqueue(id));
-                Job::PromiseJob(wrap(p, id, self.log.clone()))
+                Job::PromiseJob(wrap(p, id, self.log.clone(), self.cap.borrow().clone()))
             }
             other => other,
         };
